@@ -39,7 +39,8 @@ def run(run):
             xv, ov = mval(model, xi), mval(model, oi)
             return ov != xv % (1 << N), {"x": hex(xv), "out": hex(ov), "N": N}
         run.query(f"truncate/sound/N{N}", q, "unsat", "gadget-soundness",
-                  replay=gadget_replay(run, ["truncate", N], layout, violated),
+                  replay=gadget_replay(run, ["truncate", N], layout, violated,
+                                       complete=("blocks", rowsem, pats)),
                   meta={"N": N, "rows": len(layout.gates), "range_blocks": [(b[2], b[1] - b[0]) for b in blocks]})
         # satisfiable for every input: honest witness at boundary inputs (vacuity + completeness samples)
         for tag, xv in (("zero", 0), ("rm1", R - 1), ("pow", (1 << N) % R), ("powm1", ((1 << N) - 1) % R),
